@@ -62,15 +62,15 @@ Aspects(e) ==
        [] Prop \in {"C11", "C18"} -> {"kind", "bytes"}
        [] OTHER -> {})
   ELSE IF e.ev \in {"tbs", "verify", "struct"} THEN
-    (CASE Prop \in {"C02", "C03", "C04", "C05"} -> {"kind", "bytes", "cb", "ret"}
+    (CASE Prop \in {"C03", "C04", "C05"} -> {"kind", "bytes", "cb", "ret"}
+       [] Prop = "C02" -> {"kind", "protslots"}          \* of a structure, C02 owns the protected slots only (the rest is C03-C05's)
        [] Prop = "C06" -> {"kind", "ret", "cbhead"}        \* the bytes themselves belong to C03-C05; C06 is the RELATION (PropRel below)
        [] OTHER -> {})
   ELSE IF e.ev \in {"call", "new", "ctor", "build", "lit"} THEN
     (CASE Prop = "C19" -> {"kind", "val"}
        [] Prop \in {"C03", "C04", "C05"} -> {"kind", "cb"}
        [] Prop = "C06" -> {"kind", "cbhead"}
-       [] Prop = "C11" -> {"kind", "val"}
-       [] OTHER -> {})
+       [] OTHER -> {})            \* (C11: the builder calls only produce the value that is encoded; what they do is C19's business)
   ELSE IF e.ev = "canonicalize" THEN (IF Prop = "C20" THEN {"kind", "val"} ELSE {})
   ELSE {}
 
@@ -101,6 +101,12 @@ Origs(ty, v) ==
     [] ty = "CoseKdfContext" -> OrigsProt(v.pub.prot)
     [] OTHER -> <<>>
 
+(* the structure bytes an observation carries (returned by tbs / struct, or handed to the closure), and their protected slots *)
+StructOfObs(x) == IF x.bytes # <<>> THEN <<x.bytes[1]>> ELSE IF x.cb # <<>> THEN <<Last(x.cb)>> ELSE <<>>
+ProtSlots(b) ==
+  LET r == ReadToValue(b) IN
+  IF ~r.ok \/ r.v.t # "array" \/ Len(r.v.a) < 3 THEN <<b>>                \* not a structure at all: compare as it is
+  ELSE IF Len(r.v.a) = 5 THEN <<r.v.a[2], r.v.a[3]>> ELSE <<r.v.a[2]>>
 MatchObs(e, exp, o, asp) ==
   /\ "kind" \in asp => exp.kind = o.kind
   /\ "nopanic" \in asp => (o.kind = "panic" => exp.kind = "panic")
@@ -109,6 +115,8 @@ MatchObs(e, exp, o, asp) ==
   /\ ("cb" \in asp /\ o.kind \in {"ok", "err"} /\ exp.kind = o.kind) => exp.cb = o.cb
   /\ ("cbhead" \in asp /\ o.kind \in {"ok", "err"} /\ exp.kind = o.kind) =>
         (Len(exp.cb) = Len(o.cb) /\ (exp.cb # <<>> => SubSeq(exp.cb, 1, Len(exp.cb) - 1) = SubSeq(o.cb, 1, Len(o.cb) - 1)))
+  /\ ("protslots" \in asp /\ o.kind = "ok" /\ exp.kind = "ok" /\ StructOfObs(exp) # <<>> /\ StructOfObs(o) # <<>>) =>
+        ProtSlots(StructOfObs(exp)[1]) = ProtSlots(StructOfObs(o)[1])
   /\ ("val" \in asp /\ o.cmpval /\ o.kind \in {"ok", "err"} /\ exp.kind = o.kind) => exp.val = o.val
   /\ ("orig" \in asp /\ o.cmpval /\ o.kind = "ok" /\ exp.kind = "ok" /\ exp.val # <<>> /\ o.val # <<>>) =>
         Origs(e.ty, exp.val[1]) = Origs(e.ty, o.val[1])
@@ -169,12 +177,15 @@ PropUntagged(st, e, o) ==
 
 (* C06: any two closures of one session were handed equal structure bytes by the crate exactly when the specification says so *)
 HasCb(n, o) == n.out.kind = o.kind /\ n.out.cb # <<>> /\ o.cb # <<>>
-PropRel(n, o) == ~HasCb(n, o) \/ \A i \in 1..Len(rel) : (rel[i][1] = Last(n.out.cb)) = (rel[i][2] = Last(o.cb))
+(* the relation is stated per route: helpers taking a detached payload among themselves, the others among themselves *)
+RouteOf(e) == IF "m" \in DOMAIN e /\ e.m \in {"tbs_detached_data", "verify_detached_signature", "create_detached_signature", "try_create_detached_signature",
+                                                 "add_detached_signature", "try_add_detached_signature"} THEN "d" ELSE "p"
+PropRel(e, n, o) == ~HasCb(n, o) \/ \A i \in 1..Len(rel) : rel[i][3] = RouteOf(e) => ((rel[i][1] = Last(n.out.cb)) = (rel[i][2] = Last(o.cb)))
 RelWindow == 40           \* the correspondence is checked against the most recent RelWindow distinct pairs of at most RelMaxLen
 RelMaxLen == 2000         \* bytes each (rel is part of every TLC state: it must stay small for validation to stay linear)
-NextRel(n, o) ==
+NextRel(e, n, o) ==
   IF ~HasCb(n, o) \/ Len(Last(n.out.cb)) > RelMaxLen \/ Len(Last(o.cb)) > RelMaxLen THEN rel
-  ELSE LET p == <<Last(n.out.cb), Last(o.cb)>> IN
+  ELSE LET p == <<Last(n.out.cb), Last(o.cb), RouteOf(e)>> IN
        IF \E i \in 1..Len(rel) : rel[i] = p THEN rel
        ELSE IF Len(rel) >= RelWindow THEN Append(Tail(rel), p) ELSE Append(rel, p)
 
@@ -211,8 +222,8 @@ Consume ==
        /\ s' = n
        /\ open' = (gap \/ diverged)
        /\ fp' = IF gap \/ diverged THEN FpNone ELSE NextFp(s, e, o)
-       /\ rel' = IF gap \/ diverged \/ Prop # "C06" THEN rel ELSE NextRel(n, o)
-       /\ (gap \/ Prop # "C06" \/ PropRel(n, o)
+       /\ rel' = IF gap \/ diverged \/ Prop # "C06" THEN rel ELSE NextRel(e, n, o)
+       /\ (gap \/ Prop # "C06" \/ PropRel(e, n, o)
            \/ PrintT(<<"PROPFAIL", l, "created-and-verified-bytes-relation", ToJson([event |-> e, design |-> Obs(n)])>>))
        /\ \/ gap                                               \* unjudged
           \/ MatchObs(e, Obs(n), o, AspectsAt(s, e))
